@@ -90,7 +90,7 @@ def correspondence(ctx, drv):
         li = out["lab_index"]
         # final statuses from histories
         final = [h[-1][1] for h in out["history"]]
-        ld = captured[0]
+        ld = captured[-1]          # the structure of the checked run (a `prewarm` call on the same graph creates one before it)
         items = [idx[u] for u in ld.items]
         weights = {idx[u]: fr(ld.weight[u]) for u in ld.items}
         want = rates_py(c, G, idx, final)
